@@ -67,6 +67,7 @@ pub struct HistResult {
     pub obs: Vec<Vec<(Ph, usize, u64, u64)>>,
     pub history: Vec<Op>,
     pub op_events: BTreeMap<usize, u64>,
+    pub op_drops: BTreeMap<usize, u64>,
     pub handle_log: Vec<(usize, u32, Option<u32>, u8)>,
 }
 
@@ -97,12 +98,18 @@ pub fn apply_op(ex: &mut Exec, op: &Op) {
             }
         }
         Op::DropArena { a } => ex.do_drop_arena(*a),
+        Op::DropArenaFault { a, k } => ex.do_drop_arena_f(*a, *k),
         Op::Rootless { body } => ex.do_rootless(body),
     }
 }
 
 /// finish a history: optional audit, drop every arena (M-once), drop remaining handles afterwards
 pub fn finish_history(ex: &mut Exec, audit: bool) {
+    finish_history_f(ex, audit, 0)
+}
+
+/// `dfault` > 0: the final arena drops run with that destructor-panic plan
+pub fn finish_history_f(ex: &mut Exec, audit: bool, dfault: u32) {
     let n = ex.arenas.len() as u8 - 1;
     for a in 0..n {
         if ex.failed() {
@@ -122,8 +129,13 @@ pub fn finish_history(ex: &mut Exec, audit: bool) {
         if ex.arenas[a as usize].is_some() {
             ex.op_index += 1;
             ex.w.cur_op = ex.op_index;
-            ex.history.push(Op::DropArena { a });
-            ex.do_drop_arena(a);
+            if dfault > 0 {
+                ex.history.push(Op::DropArenaFault { a, k: dfault });
+                ex.do_drop_arena_f(a, dfault);
+            } else {
+                ex.history.push(Op::DropArena { a });
+                ex.do_drop_arena(a);
+            }
         }
     }
     // handles may outlive their arena harmlessly (C14)
@@ -162,7 +174,8 @@ pub fn run_random(cfg: &GenCfg, hseed: u64, trace_ops: bool) -> HistResult {
         apply_op(&mut ex, &op);
     }
     let audit = g.rng.chance(1, 2);
-    finish_history(&mut ex, audit);
+    let dfault = if cfg.dfaults && g.rng.chance(1, 3) { 1 + g.rng.below(6) as u32 } else { 0 };
+    finish_history_f(&mut ex, audit, dfault);
     finish_result(ex)
 }
 
@@ -184,7 +197,10 @@ pub fn run_ops(n_arenas: usize, ops: &[Op], record_obs: bool) -> HistResult {
 pub fn finish_result(mut ex: Exec) -> HistResult {
     // drop whatever is left quietly (after a violation the state may be inconsistent)
     let old = track::set_ctx(track::CTX_ARENA_DROP);
-    ex.handles.clear();
+    // (a corrupted handle table may panic when a handle is dropped: never let that escape)
+    while let Some((_, h)) = ex.handles.pop_first() {
+        let _ = std::panic::catch_unwind(std::panic::AssertUnwindSafe(|| drop(h)));
+    }
     for a in ex.arenas.iter_mut() {
         let _ = std::panic::catch_unwind(std::panic::AssertUnwindSafe(|| drop(a.take())));
     }
@@ -199,6 +215,7 @@ pub fn finish_result(mut ex: Exec) -> HistResult {
         obs: std::mem::take(&mut ex.obs),
         history: std::mem::take(&mut ex.history),
         op_events: std::mem::take(&mut ex.op_events),
+        op_drops: std::mem::take(&mut ex.op_drops),
         handle_log: std::mem::take(&mut ex.w.handle_log),
     }
 }
@@ -215,6 +232,19 @@ fn fnv(s: &str) -> u64 {
         h = h.wrapping_mul(0x100000001b3);
     }
     h
+}
+
+/// op lists in reports are for the reader; the replay descriptor regenerates the exact history
+fn clip_ops(ops: &[String], max_ops: usize, max_len: usize) -> Vec<String> {
+    let mut v: Vec<String> = ops
+        .iter()
+        .take(max_ops)
+        .map(|o| if o.len() > max_len { format!("{}... [{} chars]", o.chars().take(max_len).collect::<String>(), o.len()) } else { o.clone() })
+        .collect();
+    if ops.len() > max_ops {
+        v.push(format!("... [{} ops in all]", ops.len()));
+    }
+    v
 }
 
 pub struct Agg {
@@ -271,7 +301,7 @@ impl Agg {
                     .set("msg", v.msg.as_str())
                     .set("op_index", v.op_index)
                     .set("replay", replay.clone())
-                    .set("ops", r.ops.clone());
+                    .set("ops", clip_ops(&r.ops, 400, 400));
                 println!("VIOL {}", j.to_string());
                 self.viols.push(j);
             } else {
@@ -283,7 +313,7 @@ impl Agg {
         if nontrivial {
             self.nontrivial.insert(fnv(&r.ops.join("\n")));
             if self.samples.len() < 2 {
-                self.samples.push(J::obj().set("replay", replay).set("ops", r.ops.clone()));
+                self.samples.push(J::obj().set("replay", replay).set("ops", clip_ops(&r.ops, 40, 240)));
             }
         }
     }
@@ -353,6 +383,7 @@ fn profile_of(s: &str) -> Profile {
         "xor" => Profile::Xor,
         "multi" => Profile::Multi,
         "pace" => Profile::Pace,
+        "scale" => Profile::Scale,
         _ => Profile::General,
     }
 }
@@ -366,6 +397,8 @@ pub fn cfg_from(args: &Args) -> GenCfg {
         pacing: args.num("pacing", 0) as u8,
         faults: args.flag("faults"),
         storm: args.flag("storm"),
+        handles: args.flag("handles"),
+        dfaults: args.flag("dfaults"),
     }
 }
 
